@@ -476,18 +476,28 @@ def file_names():
     return sorted(set(bundled_files()) | set(spec_files()))
 
 
-def cases(rng, tier):
+def _generated(rng, tier):
     n_ext, n_help = {"quick": (300, 40), "thorough": (10000, 400)}.get(tier, (6000, 100))
-    if tier != "search":
-        yield {"k": "fileset"}
-        for n in file_names():
-            yield {"k": "file", "name": n}
     yield from _helper_cases(rng, n_help)
     for _ in range(n_ext):
         p = gen_program(rng)
         if rng.random() < 0.12:
             p["mut"] = copy.deepcopy(rng.choice(MUTATIONS))
         yield p
+
+
+def cases(rng, tier):
+    if tier != "search":
+        yield {"k": "fileset"}
+        for n in file_names():
+            yield {"k": "file", "name": n}
+    try:
+        gen = list(_generated(rng, tier))
+    except Exception:  # noqa: BLE001
+        # the shared generators read the bundled std definitions; when a bundled file cannot be read at all the
+        # file cases above carry the report
+        gen = []
+    yield from gen
 
 
 # ----------------------------------------------------------------------------- running programs on the real classes
@@ -832,9 +842,9 @@ def _dotted(name):
 
 def _load_file_obs(name):
     """the bundled file through the package's own loader"""
-    from hugr.std import _load_extension
-
     try:
+        from hugr.std import _load_extension
+
         e2 = _load_extension(_dotted(name))
     except Exception as ex:  # noqa: BLE001
         return _err(_load_class(ex)), A("-")
@@ -1020,8 +1030,6 @@ def _roundtrip_checks(e, fails, site_prefix=""):
 
 
 def _oracle_file(name):
-    from hugr.std import _load_extension
-
     fails: list[Failure] = []
     bf, sf = bundled_files(), spec_files()
     site = f"std/_json_defs/{name}"
@@ -1034,6 +1042,8 @@ def _oracle_file(name):
         i = next((i for i, (x, y) in enumerate(zip(a, b)) if x != y), min(len(a), len(b)))
         fails.append(Failure(site, "differs-from-specification", f"first difference at byte {i}"))
     try:
+        from hugr.std import _load_extension  # importing hugr.std already loads the prelude
+
         e = _load_extension(_dotted(name))
     except Exception as ex:  # noqa: BLE001
         fails.append(Failure("_load_extension", "raises", f"{name}: {ex!r}"[:200]))
@@ -1066,10 +1076,10 @@ _LOADED: dict = {}
 def _fresh_ext(ext_name):
     """the extension of that name loaded from the bundled files, independently of the std modules' globals"""
     if not _LOADED:
-        from hugr.std import _load_extension
-
         for n in bundled_files():
             try:
+                from hugr.std import _load_extension
+
                 e = _load_extension(_dotted(n))
                 _LOADED[e.name] = (e, json.loads(bundled_files()[n].read_text()))
             except Exception:  # noqa: BLE001
